@@ -33,6 +33,14 @@ Lemma cross_chain :
   cross_augment_is_identity = true /\ forallb (fun c => snd c) cross_augmenting_classes = true.
 Proof. repeat split; reflexivity. Qed.
 
+(* the whole order of BaseModelCrossSet.fit: both fields are pre-processed, pre-reduced, THEN augmented (the Hilbert variants build the
+   analytic signal here), THEN whitened, and the algorithm sees the whitened augmented data. The whitening matrix is therefore estimated
+   from the covariance of the augmented signal - the matrix whose fractional power the property speaks of. *)
+Lemma cross_fit_stage_order :
+  map (fun c => snd (fst (fst c))) cross_fit_calls =
+  ["preprocessor1"; "preprocessor2"; "pca1"; "pca2"; "_augment_data"; "whitener1"; "whitener2"; "_fit_algorithm"].
+Proof. reflexivity. Qed.
+
 Lemma single_chain :
   single_fit_calls = [("data2D", "preprocessor", "fit_transform", "X"); ("-", "_fit_algorithm", "call", "data2D")] /\
   single_transform_calls = [("data2D", "preprocessor", "transform", "data"); ("data2D", "_transform_algorithm", "call", "data2D")].
